@@ -322,6 +322,8 @@ def install_sympy_models(I, W):
             raise Unsupported("cse on something else than the block's statements")
         # premise of D-cse: the temporaries handed to cse are plain, assumption-free symbols named _t<i>
         # (sympy rewrites sign-sensitive functions of symbols that carry assumptions such as positive=True)
+        extra = sorted(set(kw) - {"symbols"})
+        I2.path.oblige(f"{I2.path.ghost.get('site', 'cse')}.dependency_call_shape.cse_default_options", z3.BoolVal(len(args) == 1 and not extra), note=f"cse called with extra arguments {extra}: outside the assumed contract D-cse")
         tmpl = kw.get("symbols")
         if isinstance(tmpl, GenV):
             tmpl = tmpl._seq
@@ -337,6 +339,9 @@ def install_sympy_models(I, W):
         e = args[0]
         if not isinstance(e, ExprV):
             raise Unsupported("simplify of a non-expression")
+        # D-simp (value preservation) is assumed for the DEFAULT call only: options such as inverse=True / force-style flags
+        # are documented by sympy as not value-preserving
+        I2.path.oblige(f"{I2.path.ghost.get('site', 'simplify')}.dependency_call_shape.simplify_default_options", z3.BoolVal(len(args) == 1 and not kw), note=f"simplify called with extra arguments {sorted(kw)}: outside the assumed contract D-simp")
         return ExprV(simp_f(e.z))
 
     def m_lambdify(I2, args, kw):
